@@ -21,6 +21,38 @@ def generate(rng, tier):
     n = 100 if tier == "quick" else 3000
     for _ci in range(n):
         yield gen_case(rng, allow_big=_ci < 400)          # bounded number of very long cases (memory), also in the thorough tier
+        if _ci % 5 == 0:
+            yield gen_history(rng)
+
+
+def gen_history(rng):
+    """A second phase on the same objects after the first forge / export: the sequence's sample rate is changed, or the
+    sequence is added to itself / copied and a compensation re-declared on the result - each object must deliver the
+    compensation declared for IT, at ITS current sample rate, whatever was forged before."""
+    while True:
+        case = gen_case(rng, allow_big=False)
+        if not case["long"] and not case["has_sub"] and case["decl"]:
+            break
+    ops = list(case["prog"])
+    s = next(o[1] for o in ops if o[0] == "OSForge")
+    SR = case["SR"]
+    phases = []
+    mode = rng.choice(["rate", "sum", "copy"])
+    if mode == "rate":
+        SR2 = SR * rng.choice([2, 0.5, 4])
+        ops += [("SSetSR", s, SR2), ("OSForge", s, True, False, False), ("OSForge", s, True, True, False)]
+        phases.append({"SR": SR2, "decl": case["decl"], "what": f"after setSR({SR2})"})
+    else:
+        t = max(o[1] for o in ops if o[0] in ("SNew",)) + 1
+        ops.append(("SAdd", s, s, t) if mode == "sum" else ("SCopy", s, t))
+        c = rng.choice(sorted(case["decl"]))
+        cc = int(c) if c.lstrip("-").isdigit() else c
+        kind, order, f = rng.choice(["HP", "LP"]), rng.choice([1, 2, -1]), SR * rng.choice([0.05, 0.3, 2])
+        ops += [("SSetFilter", t, cc, kind, order, f, None), ("OSForge", s, True, False, False), ("OSForge", s, True, True, False),
+                ("OSForge", t, True, False, False), ("OSForge", t, True, True, False)]
+        phases.append({"SR": SR, "decl": case["decl"], "what": f"the operand after re-declaring channel {c} on its {mode}"})
+        phases.append({"SR": SR, "decl": dict(case["decl"], **{c: (kind, order, f)}), "what": f"the {mode} with channel {c} re-declared"})
+    return dict(case, prog=ops, kind="history-" + mode, phases=phases)
 
 
 def gen_case(rng, allow_big=True):
@@ -85,6 +117,7 @@ def oracle(case, impl):
     out = []
     prog = case["prog"]
     forges = [r for op, r in zip(prog, impl) if op[0] == "OSForge"]
+    later, forges = forges[2:], forges[:2]
     awg = [r for op, r in zip(prog, impl) if op[0] == "OSAwg"][0]
     sx = [r for op, r in zip(prog, impl) if op[0] == "OSSeqx"][0]
     chans_r = [r for op, r in zip(prog, impl) if op[0] == "OSChannels"][0]
@@ -96,6 +129,26 @@ def oracle(case, impl):
     if isinstance(off, lang.Err) or isinstance(on, lang.Err):
         return out + [f"forge raised on a consistent sequence: {lang.short(off, 50)} / {lang.short(on, 50)}"]
     SR = case["SR"]
+    for k, ph in enumerate(case.get("phases", [])):
+        o2, n2 = later[2 * k], later[2 * k + 1]
+        if isinstance(o2, lang.Err) or isinstance(n2, lang.Err):
+            out.append(f"forge raised for {ph['what']}: {lang.short(o2, 40)} / {lang.short(n2, 40)}")
+            continue
+        for pos in o2:
+            for pos2 in o2[pos]["content"]:
+                a, b = o2[pos]["content"][pos2]["data"], n2[pos]["content"][pos2]["data"]
+                for c in a:
+                    u, v = np.asarray(a[c]["wfm"], dtype=float), np.asarray(b[c]["wfm"], dtype=float)
+                    want = u
+                    if str(c) in ph["decl"]:
+                        kind, order, f = ph["decl"][str(c)]
+                        want = ripasso.applyInverseRCFilter(u, ph["SR"], kind, f, order, DCgain=1)
+                    scale = max(1.0, float(np.max(np.abs(want)))) if want.size else 1.0
+                    if v.shape != want.shape or not np.allclose(v, want, rtol=1e-9, atol=1e-9 * scale):
+                        out.append(f"{ph['what']}: position {pos} channel {c!r} is not the inverse filter "
+                                   f"{ph['decl'].get(str(c))} at {ph['SR']} Sa/s of the delayed waveform")
+    if out:
+        return out[:4]
     for pos in off:
         for pos2 in off[pos]["content"]:
             a = off[pos]["content"][pos2]["data"]
